@@ -219,6 +219,10 @@ def list_concat(cx, a, b):
         raise PyRaise(SExc("TypeError"))
     if a.concrete and b.concrete:
         return SList(list(a.items) + list(b.items))
+    if "seq" in a.ghost or "seq" in b.ghost:
+        sa, sb = as_seq(a), as_seq(b)
+        if sa is not None and sb is not None:
+            return seq_list(z3.Concat(sa, sb))
     la, lb = list_len(a), list_len(b)
     n = int_binop("+", la, lb)
 
@@ -230,9 +234,37 @@ def list_concat(cx, a, b):
     return out
 
 
+INTSEQ = z3.SeqSort(z3.IntSort())
+
+
+def as_seq(l: SList):
+    """z3 Seq(Int) view of a list of ints (seq-backed abstract list or concrete list), or None"""
+    if "seq" in l.ghost:
+        return l.ghost["seq"]
+    if l.concrete:
+        t = z3.Empty(INTSEQ)
+        for x in l.items:
+            try:
+                t = z3.Concat(t, z3.Unit(to_term_int(x))) if len(l.items) > 1 or True else t
+            except Unsupported:
+                return None
+        return z3.simplify(t) if l.items else t
+    return None
+
+
+def seq_list(term, fresh: bool = True, label: str = "seq") -> SList:
+    l = SList(None, length=None, fresh=fresh, label=label)
+    l.ghost["seq"] = term
+    l.length = SInt(z3.Length(term), 0, None)
+    l.elem = lambda j, term=term: SInt(term[to_term_int(j)])
+    return l
+
+
 def list_len(l: SList):
     if l.concrete:
         return len(l.items)
+    if "seq" in l.ghost:
+        return SInt(z3.Length(l.ghost["seq"]), 0, None)
     return l.length
 
 
@@ -292,6 +324,10 @@ def generic_eq(a, b):
             return SBool(z3.And(*acc)) if acc else True
         if a is b:
             return True
+        if "seq" in a.ghost or "seq" in b.ghost:
+            sa, sb = as_seq(a), as_seq(b)
+            if sa is not None and sb is not None:
+                return SBool(sa == sb)
         if a.concrete and not a.items:
             r = cmp("==", list_len(b), 0)
             return r
